@@ -2,7 +2,8 @@
 
 Case (JSON) = one request with a bundle of runs (one literal of the request and one string table per bundle keeps
 the Coq literals small; model and implementation are compared for EACH run):
-  {"req":   a structural map request (harness/mapsym.py format; its "storage" entry is ignored here),
+  {"req":   a structural map request (harness/mapsym.py format; its "storage" entry is ignored here; a function with
+            "nullable": true returns a real None -- canonical string "None" -- for some calls, see make_callable),
    "gens":  [[position in req.funcs, ...], ...]   generation structure of the REAL pipeline (submission order),
    "runs":  [{"pis":  [[slot, ...], ...]           one execution order per generation (controlled executor),
               "eager": [[slot, ...], ...]          optional: slots that start at submission time (a prefix of pis),
@@ -11,7 +12,8 @@ the Coq literals small; model and implementation are compared for EACH run):
               "entry": "map" | "async", "seed": int (per-call delays in the real-pool modes),
               "folder": bool (False: run_folder=None, only with dict storage)}, ...]}
 Observation: [sorted table of all distinct strings, distinct output blocks, [run observation, ...]] with
-  output block    = [[Result.output, stored] per output]
+  output block    = [[Result.output, live store, value re-opened from the run folder AFTER the run (load_outputs on
+                     fresh storage objects; = live store when run_folder=None)] per output]
   run observation = [1, index of its output block, log, dumps] | Err(class);
                     a run that does not finish within TIMEOUT seconds is Err("Timeout");
   values = [0, string index] | [1, shape, [string index ...]];
@@ -37,7 +39,7 @@ import time
 from concurrent.futures import Executor, Future, ProcessPoolExecutor, ThreadPoolExecutor
 
 from .. import mapgen, mapsym
-from ..coqlit import Err, cbool, clist
+from ..coqlit import Err, cbool, clist, cstr
 
 PROP = "C03"
 RUN = "Run_C03"
@@ -57,9 +59,12 @@ ANCHORS = [
     ("pipefunc/map/_storage_array/_file.py", ["FileArray.dump", "FileArray.dump_in_subprocess"]),
 ]
 RULE = ("random valid map requests (DAGs of 1..4 structural functions, generators, reductions, tuple outputs, internal "
-        "axes at any position) x { controlled executor: every permutation of the submitted tasks of each "
+        "axes at any position, scalar functions returning a real None for some indices; plus fixed 'None chains' x -> y "
+        "(None for some i) -> z element-wise) x { controlled executor: every permutation of the submitted tasks of each "
         "generation with <= 4 tasks (others: random permutations), sync and async entry point; real thread pools with "
-        "per-call delays; thorough: process pools and the default executor } x { dict, file_array, shared_memory_dict, "
+        "per-call delays; real process pools (quick: on the None chains for every storage and on a few requests with "
+        "shared_memory_dict; thorough: everywhere, plus the default executor); the data left in the run folder is "
+        "re-opened after every run } x { dict, file_array, shared_memory_dict, "
         "per-function mixes; executor single / per output / default+overrides }; non-trivial = a generation with >= 2 "
         "tasks executed in a non-submission order, or a real pool; distinct by (specs, shapes, storages, executor, "
         "entry, schedules)")
@@ -185,13 +190,53 @@ def _with_delays(body, name, seed):
     return delayed
 
 
+def code_parity(x):
+    """As Corr/Run_C03.code_parity: the sum of the character codes is even."""
+    return sum(map(ord, x)) % 2 == 0
+
+
+def make_callable(fd, log):
+    """Variant of mapsym.make_callable: a function with fd["nullable"] returns a real None instead of a scalar value
+    whose text has an even sum of character codes (None is a perfectly valid element value)."""
+    import numpy as np
+
+    name, params, outs = fd["name"], fd["params"], fd["outs"]
+    ish = tuple(fd.get("ret") if fd.get("ret") is not None else fd.get("int") or ())
+    aslist = fd.get("intlist", False)
+    nullable = bool(fd.get("nullable"))
+
+    def body(**kw):
+        app = name + "(" + ",".join(f"{p}={mapsym.canon(kw[p])}" for p in params) + ")"
+        log.add(app)
+
+        def value(base):
+            if not ish:
+                return None if (nullable and code_parity(base)) else base
+            a = np.empty(ish, dtype=object)
+            for j in itertools.product(*map(range, ish)):
+                a[j] = "elem(" + base + ";" + ",".join(map(str, j)) + ")"
+            return a.tolist() if (aslist and len(ish) == 1) else a
+
+        if len(outs) == 1:
+            return value(app)
+        return tuple(value(f"out({o};{app})") for o in outs)
+
+    dflt = dict(fd.get("defaults") or [])
+    body.__signature__ = inspect.Signature([
+        inspect.Parameter(p, inspect.Parameter.POSITIONAL_OR_KEYWORD,
+                          default=dflt.get(p, inspect.Parameter.empty)) for p in params])
+    body.__name__ = name
+    body.__qualname__ = name
+    return body
+
+
 def build_pipeline(req, log, delay_seed=None):
     from pipefunc import PipeFunc, Pipeline
 
     funcs = []
     for fd in req["funcs"]:
         outs = fd["outs"]
-        body = mapsym.make_callable(fd, log)
+        body = make_callable(fd, log)
         if delay_seed is not None:
             body = _with_delays(body, fd["name"], delay_seed)
         funcs.append(PipeFunc(
@@ -330,8 +375,18 @@ def _call_map(p, req, run, d, executor):
     return asyncio.run(go())
 
 
-def _values(req, r):
-    return [[a, b] for _, a, b in mapsym.results_obs(req, r)]
+def _values(req, r, folder):
+    """Per output [Result.output, live store, value re-opened from the run folder after the run]."""
+    obs = mapsym.results_obs(req, r)
+    names = [o for o, _, _ in obs]
+    if folder is None:          # nothing was left on disk: the live store is all there is
+        return [[a, b, b] for _, a, b in obs]
+    from pipefunc.map import load_outputs
+
+    loaded = load_outputs(*names, run_folder=folder)
+    if len(names) == 1:
+        loaded = [loaded]
+    return [[a, b, mapsym.arr_obs(v)] for (_, a, b), v in zip(obs, loaded)]
 
 
 def _run(c, run):
@@ -351,14 +406,14 @@ def _run(c, run):
                 ex, _ = executor_arg(req, run, lambda: CtlExecutor(sched))
                 with DumpRecorder(lambda: sched.in_task) as rec:
                     r = _call_map(p, req, run, d, ex)
-                return [_values(req, r), log.read(), rec.obs(req, r)]
+                return [_values(req, r, d), log.read(), rec.obs(req, r)]
             if mode == "thread":
                 me = threading.get_ident()
                 ex, created = executor_arg(req, run,
                                            lambda: ThreadPoolExecutor(max_workers=1 + run.get("seed", 0) % 4))
                 with DumpRecorder(lambda: threading.get_ident() != me) as rec:
                     r = _call_map(p, req, run, d, ex)
-                return [_values(req, r), canon_log(c, log.read()),
+                return [_values(req, r, d), canon_log(c, log.read()),
                         sorted(rec.obs(req, r))]
             if mode == "process":
                 k = itertools.count()
@@ -375,7 +430,7 @@ def _run(c, run):
                 r = _call_map(p, req, run, d, ex)
             else:  # pipefunc's own default executor (ProcessPoolExecutor created by _maybe_executor)
                 r = _call_map(p, req, run, d, None)
-            return [_values(req, r), canon_log(c, log.read()), []]
+            return [_values(req, r, d), canon_log(c, log.read()), []]
         finally:
             for e in created:
                 e.shutdown(wait=False)
@@ -415,9 +470,9 @@ def run_impl(c):
     strings = set()
     for o in raw:
         if not isinstance(o, Err):
-            for a, b in o[0]:
-                strings.update(_val_strings(a))
-                strings.update(_val_strings(b))
+            for vs in o[0]:
+                for v in vs:
+                    strings.update(_val_strings(v))
             strings.update(o[1])
     table = sorted(strings)
     idx = {x: k for k, x in enumerate(table)}
@@ -435,9 +490,9 @@ def run_impl(c):
             out.append(o)
             continue
         vals = []
-        for a, b in o[0]:
-            ea, eb = enc(a), enc(b)
-            vals.append([] if ea is None or eb is None else [ea, eb])
+        for vs in o[0]:
+            es = [enc(v) for v in vs]
+            vals.append([] if any(e is None for e in es) else es)
         if vals not in blocks:
             blocks.append(vals)
         out.append([1, blocks.index(vals), [idx[x] for x in o[1]], o[2]])
@@ -450,7 +505,31 @@ def _request(rng):
         req = mapgen.gen_request(rng)
         if mapgen.request_size(req) <= 30:
             req.pop("storage", None)
+            for f in req["funcs"]:      # scalar-valued functions that return a real None for some calls
+                mapped = bool(f.get("spec") and f["spec"]["i"])
+                if not f.get("ret") and not f.get("int") and rng.random() < (0.35 if mapped else 0.15):
+                    f["nullable"] = True
             return req
+
+
+def _none_chain(rng):
+    """x -> y (None for some indices) -> z consumed ELEMENT-WISE (-> optional reduction): the values a consumer is
+    handed for complete elements that hold None must not depend on the storage backend."""
+    rank = rng.choice([1, 1, 2])
+    axes = ["i", "j"][:rank]
+    sh = [rng.randint(2, 4) if rank == 1 else rng.randint(2, 3) for _ in axes]
+    n = 1
+    for d in sh:
+        n *= d
+    f = lambda name, outs, params, spec, **kw: dict(  # noqa: E731
+        {"name": name, "outs": outs, "params": params, "spec": spec, "int": [], "bound": [], "defaults": []}, **kw)
+    funcs = [f("f0", ["y0"], ["x0"], {"i": [["x0", axes]], "o": [["y0", axes]]}, nullable=True),
+             f("f1", ["y1"], ["y0"], {"i": [["y0", axes]], "o": [["y1", axes]]}, nullable=rng.random() < 0.5)]
+    if rng.random() < 0.5:
+        funcs.append(f("f2", ["y2"], ["y1", "y0"], None))
+    return {"funcs": funcs, "internal": [],
+            "inputs": [["x0", {"sh": sh, "d": [f"x0_{k}" for k in range(n)],
+                               "as": "list" if rank == 1 and rng.random() < 0.5 else "nd"}]]}
 
 
 def _probe(req):
@@ -500,11 +579,14 @@ SWEEP_KINDS = ["dict", "dict", "file_array", "file_array", "mix", "mix", "shared
 
 def generate(rng, tier, mult):
     thorough = tier != "quick"
-    n_req = (32 if not thorough else 250) * mult
+    n_req = (26 if not thorough else 220) * mult
     k_random = 4 if not thorough else 10
     cases = []
-    for _ in range(n_req):
-        req = _request(rng)
+    n_chain = 2 if not thorough else 8
+    n_proc_quick = 4          # quick: real process pools on the chains and on a few random requests
+    for q in range(n_chain + n_req):
+        chain = q < n_chain
+        req = _none_chain(rng) if chain else _request(rng)
         try:
             gens, sizes = _probe(req)
         except Exception:  # noqa: BLE001  (a request the sequential property C01 already reports)
@@ -549,9 +631,24 @@ def generate(rng, tier, mult):
         # real thread pools with delays
         for st in rng.sample(KINDS, 2 if not thorough else 4):
             runs.append(run([], st, "thread", rng.choice(["map", "async"]), seed=rng.randrange(10 ** 6)))
-        if thorough:
+        has_mapped = any(f.get("spec") and f["spec"]["i"] for f in req["funcs"])
+        if chain:
+            # the data left in the run folder by a process pool, for every storage (run folder always given)
+            for st in KINDS:
+                r_ = run([], st, "process", rng.choice(["map", "async"]), seed=rng.randrange(10 ** 6),
+                         exec_form="single" if st != "mix" else None)
+                r_["folder"] = True
+                runs.append(r_)
+        elif thorough:
             for st in rng.sample(KINDS, 2):
                 runs.append(run([], st, "process", rng.choice(["map", "async"]), seed=rng.randrange(10 ** 6)))
+        elif has_mapped and n_proc_quick > 0:
+            n_proc_quick -= 1
+            for st in ("shared_memory_dict", rng.choice(["dict", "file_array", "mix"])):
+                r_ = run([], st, "process", rng.choice(["map", "async"]), seed=rng.randrange(10 ** 6))
+                r_["folder"] = True
+                runs.append(r_)
+        if thorough:
             if rng.random() < 0.1:
                 runs.append(run([], rng.choice(STORAGES), "default", rng.choice(["map", "async"]),
                                 exec_form="single", seed=rng.randrange(10 ** 6)))
@@ -572,9 +669,10 @@ def emit_case(c) -> str:
         mode = {"ctl": 0, "thread": 1}.get(r["exec"], 2)
         runs.append("{| r_pis := %s; r_dis := %s; r_mode := %d |}" % (
             clist([_nats(pi) for pi in r["pis"]]), clist([cbool(DIS[r["stor"][f["name"]]]) for f in req["funcs"]]), mode))
-    return "{| q_funcs := %s; q_inputs := %s; q_internal := %s; q_gens := %s; q_runs := %s |}" % (
+    none = clist([cstr(f["name"]) for f in req["funcs"] if f.get("nullable")])
+    return "{| q_funcs := %s; q_inputs := %s; q_internal := %s; q_gens := %s; q_runs := %s; q_none := %s |}" % (
         clist([mapgen.func_lit(f) for f in req["funcs"]]), mapgen._env(req["inputs"]),
-        mapgen.shapes_lit(req.get("internal")), clist([_nats(g) for g in c["gens"]]), clist(runs))
+        mapgen.shapes_lit(req.get("internal")), clist([_nats(g) for g in c["gens"]]), clist(runs), none)
 
 
 # ------------------------------------------------------------------ evidence helpers
@@ -585,7 +683,7 @@ def _run_nontrivial(r):
 def nontrivial_key(c):
     if not any(_run_nontrivial(r) for r in c["runs"]):
         return None
-    return ([mapsym.spec_str(f.get("spec")) for f in c["req"]["funcs"]],
+    return ([[mapsym.spec_str(f.get("spec")), bool(f.get("nullable"))] for f in c["req"]["funcs"]],
             [v["sh"] if isinstance(v, dict) else 0 for _, v in c["req"]["inputs"]],
             [[sorted(r["stor"].items()), r["stor_form"], r["exec"], r["exec_form"], r["entry"], r["pis"],
               r.get("folder", True), r.get("eager")] for r in c["runs"]])
@@ -612,6 +710,11 @@ def distribution(c):
         d["has exec_form " + k] = "yes"
     for k in sorted({r["stor_form"] for r in runs}):
         d["has stor_form " + k] = "yes"
+    if any(f.get("nullable") for f in c["req"]["funcs"]):
+        d["has None-returning function"] = "yes"
+    for k in sorted({r["exec"] + " x " + "+".join(sorted(set(r["stor"].values()))) for r in runs
+                     if r["exec"] in ("process", "default")}):
+        d["has " + k] = "yes"
     if any(any(r.get("eager") or []) for r in runs):
         d["has eager starts"] = "yes"
     if any(not r.get("folder", True) for r in runs):
